@@ -157,6 +157,16 @@ def run_randsets(spec, rec):
         letters = er7ref.letters_for(v)
         classes = textual_classes(v)
         name = rng.choice(sorted(classes))
+        # related sets follow in the same process (a cache keyed by an incomplete part of the set would answer wrongly)
+        rel = dict(ec)
+        a, b = rng.sample(['FIELD', 'COMPONENT', 'SUBCOMPONENT', 'REPETITION', 'ESCAPE'], 2)
+        rel[a], rel[b] = rel[b], rel[a]
+        rel2 = dict(ec, FIELD=rng.choice([c for c in '!$%*+;<=>?@' if c not in ec.values()]))
+        for e2 in (rel, rel2):
+            al2 = alphabet(e2)
+            for _ in range(40):
+                x = ''.join(rng.choice(al2) for _ in range(rng.randint(2, 7)))
+                judge(classes[name], name, v, x, e2, letters, rec)
         alpha = alphabet(ec)
         small = [ec['FIELD'], ec['ESCAPE'], rng.choice(er7ref.delimiters(ec)[1:]), rng.choice('HEFL'), 'x']
         for l in range(0, 5):
@@ -196,8 +206,18 @@ def run_assign(spec, rec):
     rng = gen.rng_for(spec['seed'], 'c06-assign', v)
     classes = textual_classes(v)
     from .. import structref
+    prev = None
     for i in range(spec['n']):
         ec = gen.full_ec(er7ref.std(v)) if i % 3 == 0 else gen.delimiter_set(rng, v)
+        if prev is not None and i % 4 == 1:
+            # a set related to the previous one: same characters with two roles exchanged, or only FIELD changed
+            ec = dict(prev)
+            if rng.random() < 0.5:
+                a, b = rng.sample(['FIELD', 'COMPONENT', 'SUBCOMPONENT', 'REPETITION', 'ESCAPE'], 2)
+                ec[a], ec[b] = ec[b], ec[a]
+            else:
+                ec['FIELD'] = rng.choice([c for c in '!$%*+;<=>?@' if c not in ec.values()])
+        prev = ec
         alpha = alphabet(ec) + list('ab')
         x = ''.join(rng.choice(alpha) for _ in range(rng.randint(1, 8)))
         name = 'ST' if 'ST' in classes else sorted(classes)[0]
